@@ -242,6 +242,12 @@ func isRecv(e ast.Expr) *ast.UnaryExpr {
 
 func (r *rewriter) pre(c *astutil.Cursor) bool {
 	switch n := c.Node().(type) {
+	case *ast.CompositeLit:
+		// sync.Pool{New: func() ...}: whether New runs depends on GC and on earlier runs in the same
+		// process; keep it free of scheduling points so that it cannot perturb replay.
+		if pkg, name := namedOf(r.info.TypeOf(n)); pkg == "sync" && name == "Pool" {
+			return false
+		}
 	case *ast.SelectStmt:
 		for _, cl := range n.Body.List {
 			cc := cl.(*ast.CommClause)
